@@ -25,7 +25,18 @@ MANIFEST = {
             "and by a correspondence run through stix2.markings.* functions, the same-named "
             "methods, construction and parse, with the variant selected by running each witness on the implementation.",
     "design_ref": "DESIGN.md 6/C07-C08",
-    "note": "Trusted: Coq kernel + vm_compute; the hand-written model (checked by correspondence, not translated); the "
+    "note": "What 'accepted exactly when it addresses something' means theorem by theorem: validate (and with it every "
+            "marking function's rejection: every_function_rejects) -- both directions, validate_iff_addresses; the two "
+            "queries accept what validate accepts (queries_accept, C07 query_errors_agree); construction -- both directions "
+            "but for 'addresses AND is in the selector grammar' (constructor_accepts_iff; an addressing selector outside "
+            "SELECTOR_REGEX, e.g. a two-character or upper-case first key, is refused with InvalidValueError; "
+            "InvalidSelectorError only for a non-addressing selector: constructor_rejects_only_nonaddressing); the mutators "
+            "-- rejection for all objects, acceptance proved for plain dicts only (dict_mutators_accept), for constructed "
+            "objects the rebuilt result goes through the constructor theorem; the rest of mutator acceptance is "
+            "correspondence + oracle. `addresses_something` is existential over step lists and `render` is not injective "
+            "(a key containing '.' or named '[0]' has the text of a longer path): a selector text is valid when SOME step "
+            "list with that text addresses a value, which is what the code does. "
+            "Trusted: Coq kernel + vm_compute; the hand-written model (checked by correspondence, not translated); the "
             "harness's tree dump of constructed objects and its independent path resolver. Marking ids are assumed "
             "well-formed; \\d of SELECTOR_REGEX is the 680 Unicode Nd code points (table compared with the regex on every run).",
     "technique": "Coq proof over a hand-written executable model + correspondence run + oracle search",
